@@ -2,13 +2,21 @@
 
 Proof: Props/C16.lean — explain_eq_up (explain IS classifyRow on the transaction it builds),
 discover_eq_unknown / categorised_not_listed / discover_counts (discover = the Unknown transactions
-of that classification grouped by raw description, exact counts and totals).
+of that classification grouped by raw description, exact counts and totals), discoverG_eq_discover /
+discover_row_by_row (the function the driver runs for `tally discover` is that grouping, computed transaction by
+transaction), and kernel-checked witnesses of what the classification depends on: the date of the transaction
+(classification_depends_on_date, no_sound_memo_without_date) and the rows of a supplemental source named only in a
+top-level variable (classification_depends_on_source_named_in_variable).
 Tie + oracle: the three commands run in fresh processes on the same generated budget
-(`up --format json -v`, `discover --format json --limit 0`, `explain "<desc>" --amount a --format json`):
- * discover's list = the Unknown part of up (descriptions, counts, totals);
+(`up --format json -v`, `discover --format json --limit 0`, `explain "<desc>" --amount a --format json`,
+`explain <every merchant of the report> --format json`):
+ * discover's list = the Unknown part of up (descriptions, counts; totals where up's signed sum is comparable);
  * explain(desc, amount) = what up assigns to a budget extended by exactly that transaction;
- * explain(<merchant>) reports the category/subcategory up assigned;
- * the Lean model of explain agrees with the CLI.
+ * explain(<merchant>) reports the entry up has for it: category / subcategory / matched rule / count / total;
+ * the Lean models of explain (Pipeline.classifyRow) and of discover (Pipeline.discoverRows) agree with the CLI.
+Two budget streams: (1) description/amount rule files, with a rule over supplemental rows whose source is named in any one
+of the places an expression may stand; (2) statements that repeat a line on several dates / in several sources / with
+several values of a captured column, under rules that look at exactly those.
 """
 import json
 import os
@@ -22,6 +30,46 @@ from .. import common, exprs
 from . import c11
 
 WORDS = ['UBER', 'EATS', 'NETFLIX', 'AMAZON', 'COSTCO', 'LYFT', 'SHELL', 'TARGET', 'ACME', 'PAYROLL']
+
+
+SUPP_POSITIONS = ['match', 'variable', 'let', 'let-chain', 'tag', 'field', 'variable-negated']
+
+
+def supp_rule(r, variables, position=None):
+    """A rule whose classification needs the rows of the supplemental source `orders`, the source being mentioned in ONE of the
+    places the rule language allows an expression: the match expression, a top-level variable, a let binding (directly or through a
+    second binding), a dynamic tag, a field directive. Names are resolved case-insensitively by the evaluator, so the spelling varies."""
+    src = r.choice(['orders', 'orders', 'Orders', 'ORDERS'])
+    q_any = r.choice(['any(r.amount == amount for r in %s)', 'len([r for r in %s if r.amount == amount]) > 0',
+                      'next((r.item for r in %s if r.amount == amount), "") != ""']) % src
+    q_item = 'next((r.item for r in %s if r.amount == amount), "")' % src
+    pos = position or r.choice(SUPP_POSITIONS)
+    w = r.choice(WORDS)
+    rule = {'name': 'Ordered', 'category': 'Orders', 'supp_position': pos}
+    if r.random() < 0.4:
+        rule['subcategory'] = 'Verified'
+    if pos == 'match':
+        rule['match'] = q_any if r.random() < 0.6 else f'contains("{w}") and {q_any}'
+    elif pos in ('variable', 'variable-negated'):
+        variables['has_order'] = q_any
+        if pos == 'variable':
+            rule['match'] = r.choice(['has_order', f'contains("{w}") and has_order', f'has_order and amount > 0'])
+        else:
+            rule['match'] = f'not has_order and contains("{w}")'
+    elif pos == 'let':
+        rule['lets'] = [('hit', q_any)]
+        rule['match'] = r.choice(['hit', f'hit and amount > 0'])
+    elif pos == 'let-chain':
+        rule['lets'] = [('item', q_item), ('hit', 'item != ""')]
+        rule['match'] = 'hit'
+    elif pos == 'tag':
+        # classification does not need the rows, the tag does
+        rule['match'] = f'amount == {r.choice([15.99, 100, 2.5])} or contains("{w}")'
+        rule['tags'] = ['{%s}' % q_item]
+    else:
+        rule['match'] = f'amount == {r.choice([15.99, 100, 2.5])} or contains("{w}")'
+        rule['fields'] = [('item', q_item)]
+    return rule
 
 
 def gen_rules(r, supp):
@@ -66,12 +114,20 @@ def gen_rules(r, supp):
         if r.random() < 0.25:
             rule['priority'] = r.choice([10, 60, 100])
         rules.append(rule)
-    if supp and r.random() < 0.6:
-        rules.insert(r.randint(0, 1), {'name': 'Ordered', 'match': 'any(r.amount == amount for r in orders)', 'category': 'Orders'})
+    shape = {'stream': 'description+amount', 'supp_position': None}
+    if supp and r.random() < 0.75:
+        sr = supp_rule(r, variables)
+        shape['supp_position'] = sr['supp_position']
+        rules.insert(r.randint(0, min(1, len(rules))), sr)
     transforms = []
     if r.random() < 0.3:
         transforms.append(('field.description', 'regex_replace(field.description, "^UBER\\\\s+", "")'))
-    return GR.render_rules({'variables': variables, 'transforms': transforms, 'rules': rules})
+    return GR.render_rules({'variables': variables, 'transforms': transforms, 'rules': rules}), shape
+
+
+ORDERS_SOURCE = {'name': 'orders', 'file': 'data/orders.csv', 'format': '{date:%Y-%m-%d},{item},{amount}',
+                 'columns': {'description': '{item}'}, 'supplemental': True}
+ORDERS_CSV = 'date,item,amount\n2025-01-05,Book,15.99\n2025-01-06,Pen,100.00\n2025-02-01,Ink,2.50\n'
 
 
 def gen_budget(r):
@@ -79,8 +135,12 @@ def gen_budget(r):
     b = c11.gen_budget(r)
     st = yaml.safe_load(b['files']['config/settings.yaml'])
     supp = any(s.get('supplemental') for s in st['data_sources'])
+    if not supp and r.random() < 0.35:
+        st['data_sources'].insert(r.randint(0, len(st['data_sources'])), dict(ORDERS_SOURCE, name=r.choice(['orders', 'Orders'])))
+        b['files']['data/orders.csv'] = ORDERS_CSV
+        supp = True
     b['files'].pop('config/merchant_categories.csv', None)
-    b['files']['config/merchants.rules'] = gen_rules(r, supp)
+    b['files']['config/merchants.rules'], b['shape'] = gen_rules(r, supp)
     st['merchants_file'] = 'config/merchants.rules'
     b['files']['config/settings.yaml'] = yaml.safe_dump(st, sort_keys=False)
     b['kind'] = 'rules'
@@ -89,6 +149,207 @@ def gen_budget(r):
     b['probes'] = [(f'{r.choice(WORDS)} {r.choice(WORDS)} ZQ{r.randint(10, 99)}', r.choice([5.0, 15.99, 100.0, 250.0, 1200.5, 2.5]))
                    for _ in range(2)]
     return b
+
+
+# ---- second stream: statements that REPEAT a line, rules that look at more than the description and the amount --------------------
+# `up`, `discover` and `explain <merchant>` classify parsed transactions: a transaction is a description, an amount, a date, the
+# source it came from, its location and the extra columns captured by the format string. Rules may look at any of them
+# (month / year / day / weekday / date comparisons, source, field.<name>, location), so the same statement line on two dates, in two
+# sources or with two values of a captured column can be classified differently.
+
+LINES = [('CITY PARKING GARAGE 12', 1200), ('FITCLUB MONTHLY', 4000), ('CORNER BAKERY', 750), ('UBER TRIP', 2350),
+         ('NETFLIX.COM', 1599), ('ACME PAYROLL', 200000), ('SHELL OIL 0042', 5120), ('TRADER JOES #5', 8365)]
+LINE_WORDS = ['PARKING', 'FITCLUB', 'BAKERY', 'UBER', 'NETFLIX', 'PAYROLL', 'SHELL', 'TRADER']
+TYPES = ['ACH', 'card', 'WIRE']
+PLACES = ['WA', 'CA']
+
+
+def split_atoms(occ_a, occ_b):
+    """(condition text, what the generator expects it to say of an occurrence) for conditions over date / source / captured column /
+    location that are true of occurrence a. The expectation is used only to prefer conditions that separate two occurrences of one
+    line; it is never an oracle."""
+    import datetime
+    da = occ_a['date']
+    iso = lambda o: o['date'].isoformat()
+    nxt, prv = (da + datetime.timedelta(days=1)).isoformat(), (da - datetime.timedelta(days=1)).isoformat()
+    m2 = (da.month % 12) + 1
+    out = [(f'weekday == {da.weekday()}', lambda o: o['date'].weekday() == da.weekday()),
+           (f'month == {da.month}', lambda o: o['date'].month == da.month),
+           (f'day == {da.day}', lambda o: o['date'].day == da.day),
+           (f'date == "{da.isoformat()}"', lambda o: iso(o) == da.isoformat()),
+           (('weekday >= 5', lambda o: o['date'].weekday() >= 5) if da.weekday() >= 5 else ('weekday < 5', lambda o: o['date'].weekday() < 5)),
+           (f'(month == {da.month} or month == {m2})', lambda o: o['date'].month in (da.month, m2)),
+           (f'day <= {da.day}', lambda o: o['date'].day <= da.day),
+           (f'day >= {da.day}', lambda o: o['date'].day >= da.day),
+           (f'year == {da.year}', lambda o: o['date'].year == da.year),
+           (f'date <= "{da.isoformat()}"', lambda o: iso(o) <= da.isoformat()),
+           (f'date >= "{da.isoformat()}"', lambda o: iso(o) >= da.isoformat()),
+           (f'date < "{nxt}"', lambda o: iso(o) < nxt),
+           (f'date > "{prv}"', lambda o: iso(o) > prv),
+           (f'source == "{occ_a["source"]}"', lambda o: o['source'] == occ_a['source']),
+           (f'source != "{occ_b["source"]}"', lambda o: o['source'] != occ_b['source']),
+           (f'txn.source == "{occ_a["source"]}"', lambda o: o['source'] == occ_a['source']),
+           (f'txn.month == {da.month}', lambda o: o['date'].month == da.month)]
+    ca = occ_a['cents']
+    out += [(f'amount == {ca / 100!r}', lambda o: o['cents'] == ca), (f'amount <= {ca / 100!r}', lambda o: o['cents'] <= ca),
+            (f'amount > {(ca - 50) / 100!r}', lambda o: o['cents'] > ca - 50)]
+    if occ_a.get('type') is not None:
+        ta = occ_a['type']
+        out += [(f'field.type == "{ta}"', lambda o: (o.get('type') or '').lower() == ta.lower()),
+                (f'contains(field.type, "{ta}")', lambda o: ta.upper() in (o.get('type') or '').upper())]
+    if occ_a.get('location') is not None:
+        la = occ_a['location']
+        out += [(f'txn.location == "{la}"', lambda o: (o.get('location') or '') == la),
+                (f'field.location == "{la}"', lambda o: (o.get('location') or '') == la)]
+    return out
+
+
+VARIABLE_DEFS = {'is_weekend': ('weekday >= 5', lambda o: o['date'].weekday() >= 5), 'is_q1': ('month <= 3', lambda o: o['date'].month <= 3)}
+
+
+def gen_repeating_budget(r):
+    import datetime
+    import yaml
+    year = 2025
+    nsrc = r.choice([1, 2, 2, 3])
+    lines = r.sample(LINES, r.choice([2, 3, 4]))
+    sources, files, occs = [], {}, []
+    layout = None
+    for i in range(nsrc):
+        datefmt = r.choice(['%Y-%m-%d', '%m/%d/%Y'])
+        cols = ['date', 'description', 'amount']
+        with_type, with_loc = (r.random() < 0.45, r.random() < 0.4) if (layout is None or r.random() < 0.3) else layout
+        layout = (with_type, with_loc)
+        if with_type:
+            cols.append('type')
+        if with_loc:
+            cols.append('location')
+        if r.random() < 0.3:
+            cols.insert(r.randint(0, len(cols)), '_')
+        src = {'name': f'Src{i}', 'file': f'data/s{i}.csv',
+               'format': ','.join('{date:%s}' % datefmt if c == 'date' else '{%s}' % c for c in cols)}
+        header = r.random() < 0.6
+        if not header or r.random() < 0.3:
+            src['has_header'] = header
+        rows = []
+        for desc, cents in lines:
+            if r.random() < 0.15:
+                continue
+            # the same line (same text, same amount) two to four times: on other dates (weekend and weekday, two months, first and second
+            # half), or as a TWIN of an earlier occurrence — same date, but in another source / with another value of the captured column,
+            # another location or (rarely) another amount — so that each attribute of a transaction is, somewhere, the only difference
+            for _ in range(r.choice([2, 2, 3, 4])):
+                earlier = [o for o in occs + rows if o['description'] == desc]
+                typ, loc = (r.choice(TYPES) if with_type else None), (r.choice(PLACES) if with_loc else None)
+                if earlier and r.random() < 0.4:
+                    tw = r.choice(earlier)
+                    d, amt = tw['date'], tw['cents']
+                    typ = tw['type'] if (with_type and tw['type'] is not None) else typ
+                    loc = tw['location'] if (with_loc and tw['location'] is not None) else loc
+                    if tw['source'] == src['name'] or r.random() < 0.3:
+                        vary = r.choice((['type'] if with_type else []) + (['location'] if with_loc else []) + ['amount'])
+                        if vary == 'type':
+                            typ = r.choice([t for t in TYPES if t != typ])
+                        elif vary == 'location':
+                            loc = r.choice([p for p in PLACES if p != loc])
+                        else:
+                            amt = amt + r.choice([100, 5000])
+                else:
+                    d = datetime.date(year, r.choice([1, 1, 2, 3, 12]), r.randint(1, 28))
+                    amt = cents if r.random() < 0.85 else cents + r.choice([100, 5000])
+                occ = {'source': src['name'], 'description': desc, 'cents': amt, 'date': d, 'type': typ, 'location': loc}
+                rows.append(occ)
+        if r.random() < 0.5:
+            rows.append({'source': src['name'], 'description': f'ONE OFF SHOP {r.randint(10, 99)}', 'cents': r.choice([999, 12345]),
+                         'date': datetime.date(year, r.randint(1, 12), r.randint(1, 28)),
+                         'type': r.choice(TYPES) if with_type else None, 'location': r.choice(PLACES) if with_loc else None})
+        r.shuffle(rows)
+        text = []
+        if header:
+            text.append(','.join(c.upper() for c in cols))
+        for o in rows:
+            cell = {'date': o['date'].strftime(datefmt), 'description': o['description'], 'amount': '%d.%02d' % divmod(o['cents'], 100),
+                    'type': o['type'] or '', 'location': o['location'] or '', '_': r.choice(['x', '', '77'])}
+            text.append(','.join(cell[c] for c in cols))
+        files[src['file']] = '\n'.join(text) + '\n'
+        sources.append(src)
+        occs.extend(rows)
+    supp = r.random() < 0.3
+    if supp:
+        sources.insert(r.randint(0, len(sources)), dict(ORDERS_SOURCE))
+        files['data/orders.csv'] = ORDERS_CSV
+    # rules: (word of a repeated line) combined with a condition that separates two of its occurrences
+    variables = {}
+    if r.random() < 0.4:
+        variables['is_weekend'] = VARIABLE_DEFS['is_weekend'][0]
+    if r.random() < 0.3:
+        variables['is_q1'] = VARIABLE_DEFS['is_q1'][0]
+    rules = []
+    kinds = set()
+    by_line = {}
+    for o in occs:
+        by_line.setdefault(o['description'], []).append(o)
+    repeated = [v for v in by_line.values() if len(v) >= 2]
+    twins = [(x, y) for v in repeated for x in v for y in v if x is not y and x['date'] == y['date']
+             and any(x[k] != y[k] for k in ('source', 'type', 'location', 'cents'))]
+    for i in range(r.choice([2, 3, 4, 5])):
+        if twins and r.random() < 0.4:
+            a, b = r.choice(twins)
+        elif repeated and r.random() < 0.85:
+            group = r.choice(repeated)
+            a, b = r.sample(group, 2)
+        else:
+            a, b = (r.sample(occs, 2) if len(occs) >= 2 else (occs[0], occs[0]))
+        atoms = split_atoms(a, b) + [(v, VARIABLE_DEFS[v][1]) for v in variables if v in VARIABLE_DEFS]
+        separating = [x for x in atoms if x[1](a) != x[1](b)]
+        atom = (r.choice(separating) if (separating and r.random() < 0.75) else r.choice(atoms))[0]
+        kinds.add('location' if 'location' in atom else 'field' if 'field.' in atom else atom.lstrip('(').split(' ')[0].replace('txn.', ''))
+        word = next((w for w in LINE_WORDS if w in a['description']), 'SHOP')
+        k = r.random()
+        if k < 0.55:
+            m = f'contains("{word}") and {atom}'
+        elif k < 0.7:
+            m = f'contains("{word}") and not ({atom})'
+        elif k < 0.85:
+            m = atom
+        else:
+            m = f'({atom} or amount > {r.choice([100, 1000])}) and contains("{word}")'
+        rule = {'name': f'D{i}{word.title()}', 'match': m}
+        tag_only = r.random() < 0.2
+        if not tag_only:
+            rule['category'] = r.choice(['Food', 'Transport', 'Shopping', 'Bills', 'Income'])
+            if r.random() < 0.5:
+                rule['subcategory'] = r.choice(['A', 'B'])
+        if tag_only or r.random() < 0.3:
+            rule['tags'] = r.sample(['business', 'recurring', 'x'], r.choice([1, 2]))
+        if r.random() < 0.2:
+            rule['lets'] = [('late', 'day > 15')]
+            rule['match'] = f'({m}) and (late or day <= 15)' if r.random() < 0.5 else f'{m} and late'
+        if r.random() < 0.25:
+            rule['priority'] = r.choice([10, 60, 100])
+        rules.append(rule)
+    same_day = {}
+    for o in occs:
+        same_day.setdefault((o['description'], o['date']), []).append(o)
+    shape = {'stream': 'repeated-lines', 'supp_position': None, 'condition_kinds': sorted(kinds),
+             'repeated_lines': len({(o['description'], o['cents']) for o in occs
+                                    if sum(1 for x in occs if (x['description'], x['cents']) == (o['description'], o['cents'])) >= 2}),
+             'same_day_twins': sum(1 for v in same_day.values() if len(v) >= 2)}
+    if supp and r.random() < 0.8:
+        sr = supp_rule(r, variables)
+        shape['supp_position'] = sr['supp_position']
+        rules.insert(r.randint(0, len(rules)), sr)
+    from ..gen import rules as GR
+    files['config/merchants.rules'] = GR.render_rules({'variables': variables, 'transforms': [], 'rules': rules})
+    settings = {'year': year, 'data_sources': sources, 'merchants_file': 'config/merchants.rules'}
+    mode = r.choice(['first_match', 'first_match', 'most_specific'])
+    if mode != 'first_match' or r.random() < 0.2:
+        settings['rule_mode'] = mode
+    files['config/settings.yaml'] = yaml.safe_dump(settings, sort_keys=False)
+    probes = [(f'{r.choice(LINE_WORDS)} {r.choice(WORDS)} ZQ{r.randint(10, 99)}', r.choice([12.0, 15.99, 100.0, 40.0, 2.5])) for _ in range(2)]
+    # explain "<description>" --amount knows no date / source / column: its agreement with `up` is only claimed for rule files that do
+    # not look at them (first stream); here the probes feed the model correspondence only
+    return {'files': files, 'kind': 'rules', 'probes': probes, 'shape': shape, 'probe_oracle': False}
 
 
 def run_cmd(d, args):
@@ -135,16 +396,40 @@ def observe(budget):
             obs['explain'].append(first_json(out))
         obs['explain_merchant'] = {}
         if obs['up']:
-            for m in obs['up']['merchants'][:3]:
-                rc, out, err = run_cmd(d, ['explain', m['name'], 'config', '--format', 'json'])
-                obs['explain_merchant'][m['name']] = first_json(out)
+            # every merchant of the report, in one invocation (explain takes several names and prints one JSON document each)
+            names = [m['name'] for m in obs['up']['merchants']][:12]
+            if names:
+                rc, out, err = run_cmd(d, ['explain'] + names + ['config', '--format', 'json'])
+                for doc in json_documents(out):
+                    if isinstance(doc, dict) and 'name' in doc and doc['name'] in names:
+                        obs['explain_merchant'].setdefault(doc['name'], doc)
+                obs['explain_merchant_asked'] = names
     finally:
         shutil.rmtree(d, ignore_errors=True)
     obs['up_probe'] = []
     for desc, amount in budget['probes']:
-        r2 = c11.run_up(with_probe(budget, desc, amount))
-        obs['up_probe'].append(r2.get('json'))
+        if budget.get('probe_oracle', True):
+            r2 = c11.run_up(with_probe(budget, desc, amount))
+            obs['up_probe'].append(r2.get('json'))
+        else:
+            obs['up_probe'].append(None)
     return obs
+
+
+def json_documents(out):
+    """the JSON documents printed one after the other on stdout (text between them skipped)"""
+    dec = json.JSONDecoder()
+    docs, i = [], 0
+    while True:
+        idx = [k for k in (out.find('{', i), out.find('[', i)) if k >= 0]
+        if not idx:
+            return docs
+        try:
+            doc, end = dec.raw_decode(out[min(idx):])
+            docs.append(doc)
+            i = min(idx) + end
+        except Exception:
+            i = min(idx) + 1
 
 
 def find_desc(upj, desc):
@@ -172,6 +457,21 @@ def oracle(budget, obs):
             fails.append({'class': 'discover-failed', 'budget': budget, 'exit': obs['discover_rc'], 'unknown_in_up': want})
     elif got != want:
         fails.append({'class': 'discover-differs-from-unknown-of-up', 'budget': budget, 'discover': got, 'unknown_in_up': want})
+    else:
+        # totals: discover adds |amount| per raw description, up adds the signed amounts per merchant; where no amount of an Unknown
+        # merchant is negative the two are the same sum over the same transactions
+        by_raw = {e['raw_description']: e for e in obs['discover']}
+        for m in up['merchants']:
+            if m['category'] != 'Unknown':
+                continue
+            es = [by_raw[dsc] for dsc in (m.get('raw_descriptions') or {})]
+            if not es or sum(e['count'] for e in es) != m['count'] or any(e.get('has_negative') for e in es):
+                continue
+            tot = sum(e['total_spend'] for e in es)
+            if abs(tot - m['total']) > 0.005 * (len(es) + 1) + 1e-9:
+                fails.append({'class': 'discover-total-differs-from-up', 'budget': budget, 'merchant': m['name'],
+                              'discover_total': tot, 'up_total': m['total']})
+                break
     # explain(desc, amount) = up on the budget extended by that transaction
     for (desc, amount), ex, upp in zip(budget['probes'], obs['explain'], obs['up_probe']):
         if upp is None:
@@ -190,49 +490,77 @@ def oracle(budget, obs):
         elif ex.get('matched_rule') and m.get('pattern') and ex['matched_rule'].get('pattern') != m['pattern'].get('matched'):
             fails.append({'class': 'explain-reports-another-rule', 'budget': budget, 'description': desc, 'amount': amount,
                           'explain': ex['matched_rule'].get('pattern'), 'up': m['pattern'].get('matched')})
-    # explain(<merchant name>) reports up's category
-    for name, ex in obs['explain_merchant'].items():
+    # explain <merchant> reports the entry `up` has for that merchant: category / subcategory / matching rule, and it is made of the
+    # same transactions (count, total)
+    for name in obs.get('explain_merchant_asked', []):
         m = next((x for x in up['merchants'] if x['name'] == name), None)
-        if ex is None or m is None:
+        entry = obs['explain_merchant'].get(name)
+        if m is None:
             continue
-        entry = ex
-        if isinstance(ex, dict) and 'merchants' in ex:
-            entry = next((x for x in ex['merchants'] if x.get('name') == name), None)
-        if isinstance(entry, dict) and 'category' in entry and (entry['category'], entry.get('subcategory', '')) != (m['category'], m['subcategory']):
-            fails.append({'class': 'explain-merchant-differs-from-up', 'budget': budget, 'merchant': name,
-                          'explain': (entry['category'], entry.get('subcategory')), 'up': (m['category'], m['subcategory'])})
+        if not isinstance(entry, dict) or 'category' not in entry:
+            fails.append({'class': 'explain-merchant-no-answer', 'budget': budget, 'merchant': name,
+                          'up': (m['category'], m['subcategory'], m['count'])})
+            continue
+        got = (entry['category'], entry.get('subcategory', ''))
+        want2 = (m['category'], m['subcategory'])
+        if got != want2:
+            fails.append({'class': 'explain-merchant-differs-from-up', 'budget': budget, 'merchant': name, 'explain': got, 'up': want2})
+        elif (entry.get('count'), entry.get('total')) != (m['count'], m['total']):
+            fails.append({'class': 'explain-merchant-made-of-other-transactions', 'budget': budget, 'merchant': name,
+                          'explain': (entry.get('count'), entry.get('total')), 'up': (m['count'], m['total'])})
+        elif (entry.get('pattern') or {}).get('matched') != (m.get('pattern') or {}).get('matched'):
+            fails.append({'class': 'explain-merchant-reports-another-rule', 'budget': budget, 'merchant': name,
+                          'explain': (entry.get('pattern') or {}).get('matched'), 'up': (m.get('pattern') or {}).get('matched')})
     return fails
 
 
-def model_explain_cases(budget):
-    mi = c11.model_input(budget)
+def model_explain_cases(budget, mi):
     if mi is None:
         return []
     return [{'rulebook': mi['rulebook'], 'supp': mi['supp'], 'description': d, 'amount': common.float_bits(a)} for d, a in budget['probes']]
+
+
+def discover_view(obs):
+    """what `tally discover --format json --limit 0` said: {raw description: (count, total)}; 'no-transactions' when it found none"""
+    if obs['discover'] is None:
+        return 'no-transactions' if obs['discover_rc'] == 1 else {'exit': obs['discover_rc']}
+    return {e['raw_description']: (e['count'], e['total_spend']) for e in obs['discover']}
+
+
+def model_discover_view(out):
+    if 'listed' not in out:
+        return {'model_error': out}
+    if out['transactions'] == 0:
+        return 'no-transactions'
+    return {raw: (cnt, round(common.bits_float(tot), 2)) for raw, cnt, tot in out['listed']}
 
 
 def run(ctx):
     lo = common.lean_phase(ctx, 'TallyVerif.Props.C16')
     r = ctx.rng
     n = 40 if ctx.quick else 1200
+    n2 = 24 if ctx.quick else 600
     if ctx.replay:
         ce = json.loads(common.read(ctx.replay)).get('counterexample', {})
         budgets = [ce['budget']] if 'budget' in ce else []
     else:
-        budgets = [gen_budget(r) for _ in range(n)]
+        budgets = [gen_budget(r) for _ in range(n)] + [gen_repeating_budget(r) for _ in range(n2)]
     with ThreadPoolExecutor(max_workers=16) as ex:
         observations = list(ex.map(observe, budgets))
     prop_fail, corr_fail = [], []
     for b, o in zip(budgets, observations):
         prop_fail.extend(oracle(b, o))
-    # model of explain vs the CLI
-    mcases, mwant = [], []
-    for b, o in zip(budgets, observations):
+    # the Lean models of explain and of discover vs the CLI
+    minputs = []
+    for b in budgets:
         try:
-            cs = model_explain_cases(b)
-        except Exception:
-            cs = []
-        for c, e in zip(cs, o['explain']):
+            minputs.append(c11.model_input(b))
+        except Exception as e:
+            minputs.append(None)
+            ctx.notes.setdefault('model_input_errors', []).append(f'{type(e).__name__}: {e}'[:120])
+    mcases, mwant = [], []
+    for b, o, mi in zip(budgets, observations, minputs):
+        for c, e in zip(model_explain_cases(b, mi), o['explain']):
             if e and 'category' in e:
                 mcases.append(c); mwant.append(e)
     nmodel = 0
@@ -246,23 +574,69 @@ def run(ctx):
             b3 = (e.get('merchant'), e.get('category'), e.get('subcategory'))
             if a != b3:
                 corr_fail.append({'description': c['description'], 'amount': c['amount'], 'model': a, 'implementation': b3})
+    dcases = [(i, mi) for i, mi in enumerate(minputs) if mi is not None and observations[i]['up'] is not None]
+    disc_fail, ndisc = [], 0
+    if dcases:
+        c11.fill_csv_oracles([mi for _, mi in dcases])
+        for _, mi in dcases:
+            for src in mi['sources']:
+                src.pop('_fmt', None)
+        outs = exprs.model_eval([mi for _, mi in dcases], op='discoverlist')
+        for (i, mi), mo in zip(dcases, outs):
+            if mo.get('err') == 'unmodelled':
+                continue
+            ndisc += 1
+            mv, iv = model_discover_view(mo), discover_view(observations[i])
+            if not c11.close(mv, iv):
+                disc_fail.append({'model': mv, 'implementation': iv, 'budget': budgets[i]})
     ctx.obligation('correspondence:tally explain "<description>" --amount (fresh process) vs Pipeline.classifyRow', 'correspondence',
                    not corr_fail, cases=nmodel, error=json.dumps(corr_fail[0], default=str)[:1500] if corr_fail else None)
-    ctx.cov['evaluations'] = len(budgets) * 6
-    ctx.cov['traces_validated_against_impl'] = nmodel
+    ctx.obligation('correspondence:tally discover --format json (fresh process) vs Pipeline.discoverRows', 'correspondence',
+                   not disc_fail, cases=ndisc, error=json.dumps(disc_fail[0], default=str)[:2500] if disc_fail else None)
+    ctx.cov['evaluations'] = sum(2 + len(b['probes']) * (2 if b.get('probe_oracle', True) else 1) + len(o.get('explain_merchant_asked', []))
+                                 for b, o in zip(budgets, observations))
+    ctx.cov['traces_validated_against_impl'] = nmodel + ndisc
+    ctx.notes['model_traces'] = {'explain': nmodel, 'discover': ndisc}
     ctx.cov['distinct_nontrivial'] = sum(1 for o in observations if o['up'] and o['discover'] and len(o['up']['merchants']) >= 2)
-    ctx.cov['rule'] = ('generated budgets (as C11) with description/amount based rule files: tag-only rules first, variables, let / field directives, '
-                       '`not …`, `in`, regex, both rule modes, a description transform, a rule over supplemental rows; on each: up, discover, '
-                       'explain for two descriptions that do not occur in the data (with amounts) and for three merchants, all in fresh processes, '
-                       'plus up on the budget extended by each probed transaction. Non-trivial = ≥ 2 merchants and a non-empty Unknown list')
+    ctx.cov['rule'] = ('(1) generated budgets (as C11) with description/amount based rule files: tag-only rules first, variables, let / field directives, '
+                       '`not …`, `in`, regex, both rule modes, a description transform, and a rule that needs the rows of a supplemental source, the '
+                       'source being named in any ONE place the language allows (match expression, top-level variable — also negated —, let binding, '
+                       'chained let bindings, dynamic tag, field directive; spelled orders / Orders / ORDERS); '
+                       '(2) budgets whose statements REPEAT a line (same text and amount) on 2–4 dates, in several sources, with different values of a '
+                       'captured column / location, under rules that look at month / year / day / weekday / date comparisons / source / field.<name> / '
+                       'location (directly, negated, through a top-level variable or a let binding), chosen so that they separate two occurrences of '
+                       'one line. On each budget: up, discover, explain for two descriptions that do not occur in the data (with amounts) and explain '
+                       'for every merchant of the report (≤ 12), all in fresh processes; on (1) also up on the budget extended by each probed '
+                       'transaction. Non-trivial = ≥ 2 merchants and a non-empty Unknown list')
     ctx.notes['budgets_with_unknown'] = sum(1 for o in observations if o['discover'])
-    for b in budgets[:2]:
-        ctx.sample({'rules': b['files']['config/merchants.rules'][:400], 'probes': b['probes']})
+    shapes = [b.get('shape') or {} for b in budgets]
+    ctx.notes['budgets_by_stream'] = {k: sum(1 for sh in shapes if sh.get('stream') == k) for k in ('description+amount', 'repeated-lines')}
+    ctx.notes['supplemental_source_named_in'] = {k: sum(1 for sh in shapes if sh.get('supp_position') == k) for k in SUPP_POSITIONS}
+    kinds = {}
+    for sh in shapes:
+        for k in sh.get('condition_kinds', []):
+            kinds[k] = kinds.get(k, 0) + 1
+    ctx.notes['repeated_line_budgets_by_condition_kind'] = kinds
+    # how often the widened classes were actually decisive, measured on `up` alone: a raw description that `up` puts both under
+    # Unknown and under a category (only a condition beyond description+amount… or the amount variation can do that)
+    split = 0
+    for o in observations:
+        if not o['up']:
+            continue
+        unk = {d for m in o['up']['merchants'] if m['category'] == 'Unknown' for d in (m.get('raw_descriptions') or {})}
+        cat = {d for m in o['up']['merchants'] if m['category'] != 'Unknown' for d in (m.get('raw_descriptions') or {})}
+        split += bool(unk & cat)
+    ctx.notes['budgets_where_one_raw_description_is_both_unknown_and_categorised'] = split
+    ctx.notes['budgets_where_up_used_the_supplemental_rule'] = sum(
+        1 for o in observations if o['up'] and any(m['name'] == 'Ordered' for m in o['up']['merchants']))
+    ctx.notes['merchants_explained'] = sum(len(o.get('explain_merchant_asked', [])) for o in observations)
+    for b in budgets[:2] + budgets[n:n + 1]:
+        ctx.sample({'rules': b['files']['config/merchants.rules'][:400], 'probes': b['probes'], 'shape': b.get('shape')})
 
     def search():
         out = []
-        for _ in range(60):
-            b = gen_budget(r)
+        for i in range(120):
+            b = gen_budget(r) if i % 2 == 0 else gen_repeating_budget(r)
             out.extend(oracle(b, observe(b)))
             if out:
                 break
@@ -272,6 +646,10 @@ def run(ctx):
                     required='explain reports the merchant / category / subcategory / rule that up assigns to such a transaction; discover lists exactly '
                              'the transactions up leaves Unknown, with the same counts')
     return ctx.finish(extra_trusted=[
-        'PARTIAL: argparse, printing and explain\'s lookup cascade are exercised, not modelled; explain knows only a description and an amount, so rules over '
-        'dates, source or custom fields are outside the description+amount clause (the generator uses description/amount/supplemental conditions)',
+        'PARTIAL: argparse, printing and explain\'s lookup cascade are exercised, not modelled; explain "<description>" --amount knows only a description '
+        'and an amount, so its agreement with up is claimed and checked for rule files over description / amount / supplemental rows (stream 1); under '
+        'rules over dates, source, location or captured columns (stream 2) discover and explain <merchant> are checked against up, and explain '
+        '"<description>" against the model only (transaction without a date)',
+        'discover totals are compared with up only for Unknown merchants without negative amounts (up prints signed sums, discover sums |amount|); '
+        'all totals are compared with the Lean model of discover',
         'the component models and their own ties (C05, C04/C08, C01/C02/C09, C11)'])
